@@ -116,8 +116,14 @@ def analyse(R, runner, trace, tag):
             what = {"adv_ok": "an advertisement of the real router lists a destination whose best cost is >= infinity",
                     "table_ok": "after the proved number of fair rounds the real router's table is not the shortest-path table of the topology",
                     "harness": "the harness saw an ill-formed table/advertisement"}.get(which, which)
-            R.oracle_failure(sig, what, dict(case=p[2], detail=detail[:3000], ops=ops[-4000:], trace_line=ln,
-                                             replay_hint="VERIF_SEED=%d, case %s of harness/dv TestTrace" % (R.seed, cid)))
+            rep = dict(case=p[2], detail=detail[:3000], ops=ops[-6000:], trace_line=ln)
+            if R._shrinks < 2 and len(ops) <= 6000:
+                R._shrinks += 1
+                small, ok = shrink(R, R._exe, R._runner, ops, which)
+                if ok:
+                    rep["ops_min"] = small
+                    rep["shrunk"] = "%d -> %d events" % (len([x for x in ops if x.startswith("ev ")]), len([x for x in small if x.startswith("ev ")]))
+            R.oracle_failure(sig, what, rep)
         elif l.startswith("DIVERGE"):
             p = l.split(" ", 4)
             ln = int(p[1])
@@ -127,6 +133,56 @@ def analyse(R, runner, trace, tag):
                          dict(case=p[2], field=p[3], detail=(p[4] if len(p) > 4 else "")[:3000], ops=ops[-4000:]))
         elif l.startswith(("BADCHK", "BADLINE")):
             R.proof_problems.append("runner rejected the harness trace: " + l[:300])
+
+
+def replay_ops(R, exe, runner, ops, tag="rp"):
+    """re-run exactly these case/node/ev/chk lines on the implementation and the model; returns the runner output"""
+    opsf = os.path.join(R.work, "ops-%s.txt" % tag)
+    trace = os.path.join(R.work, "trace-%s" % tag)
+    open(opsf, "w").write("\n".join(ops) + "\n")
+    env = vlib.goenv(); env.update(VERIF_OPS=opsf, VERIF_OUT=trace)
+    rc, out = vlib.sh([exe, "-test.run", "TestReplay$", "-test.count=1"], env=env, timeout=300)
+    if rc != 0:
+        return "HARNESSCRASH " + out[-500:]
+    rc, out = vlib.sh("%s < %s" % (runner, trace), timeout=300)
+    return out
+
+
+def shrink(R, exe, runner, ops, which):
+    """delta-debug the event list: keep case/node/chk lines, drop ev lines while the same oracle still fails
+    (a check that is no longer justified by enough rounds is rejected by the runner and does not count)"""
+    fixed = [(k, l) for k, l in enumerate(ops) if not l.startswith("ev ")]
+    evs = [(k, l) for k, l in enumerate(ops) if l.startswith("ev ")]
+    # only the last check matters
+    def build(sub):
+        return [l for _, l in sorted(fixed + sub)]
+    def fails(sub):
+        out = replay_ops(R, exe, runner, build(sub), "shrink")
+        return ("ORACLE" in out) and any(l.split(" ")[3] == which for l in out.split("\n") if l.startswith("ORACLE"))
+    if not fails(evs):
+        return ops, False
+    small = vlib.ddmin(evs, fails, budget=150)
+    return build(small), True
+
+
+def replay(R, path):
+    import json
+    rj = json.load(open(path))
+    print(json.dumps({k: rj[k] for k in rj if k not in ("ops", "ops_min", "how_to_replay")}, indent=1)[:3000])
+    ops = rj.get("ops_min") or rj.get("ops") or (rj.get("first_divergence") or {}).get("ops")
+    if not ops:
+        print("no operation list recorded in this replay file"); return 2
+    ok, runner, log = vlib.extract_build("Dv")
+    exe = os.path.join(R.work, "h.test")
+    ok2, log2 = vlib.go_test_build("dv", exe)
+    if not (ok and ok2):
+        print("build failed", (log or "")[-500:], (log2 or "")[-500:]); return 2
+    out = replay_ops(R, exe, runner, ops, "replay")
+    bad = [l for l in out.split("\n") if l.startswith(("ORACLE", "DIVERGE", "HARNESSCRASH"))]
+    print("\n".join(ops[-40:]))
+    print("---- result of replaying %d lines on the current tree ----" % len(ops))
+    print("\n".join(l[:600] for l in bad[:10]) if bad else "no failure reproduced")
+    return 1 if bad else 0
 
 
 def run(R):
@@ -141,6 +197,9 @@ def run(R):
     ]
     R.coverage["trusted_base"] = ["Coq kernel 8.16.1", "Coq extraction + OCaml 4.13.1", "runner/Dv/driver.ml", "harness/dv generator and fake ndn.Engine",
                                   "translators/dv (go/types constant evaluation)", "go1.26 toolchain, testing/synctest"]
+    import glob
+    for f in glob.glob(os.path.join(R.work, "replay-*.json")):
+        os.remove(f)
     translate(R)
     R.prove("Dv")
     if not R.quick:
@@ -152,6 +211,7 @@ def run(R):
     ok, log = vlib.go_test_build("dv", exe)
     if not ok:
         R.proof_problems.append("Go harness for dv no longer builds against the tree: " + log[-400:]); R.log(log[-1500:]); return R.finish()
+    R._shrinks = 0; R._exe = exe; R._runner = runner
     R.coverage["rule"] = ("one evaluation = one generated case: a connected graph on 2..6 real dv.Router objects with random names (random tie-break order), "
                           "bring-up, fair rounds (random permutations with repetitions), 2-3 fault phases (link/router loss and re-addition in random order, partial rounds) "
                           "each followed by INF+maxdist+1 fair rounds and the convergence oracle; every event is replayed on the extracted model and the whole RIB compared. "
